@@ -575,7 +575,7 @@ pub fn run(run: &mut Run) {
         histories of calls (insert / remove / clear / from_bits) on the public set-valued fields of PLC, SMALL_ALC, MAL and IPB, compared \
         with an ordered-set model after every call. \
         Oracle: encode(p0) succeeds, decode(e1) consumes e1 and renders identically to p0 (Debug), encode(p1) == e1 byte for byte; \
-        both size modes. Non-trivial = the frame differs from the kind's all-zero frame."
+        both size modes. Further parts: sequences of packets (refused ones among them) on two long-lived codecs, each frame compared with a fresh codec's (reference pass afterwards, in reverse order); one text written through 2..6 text fields in a row, each frame compared with the one produced on a fresh thread; ISI with the same text in its raw and its coded field. Non-trivial = the frame differs from the kind's all-zero frame."
         .into();
     run.assumptions = vec![
         "Packet equality is observed through the derived Debug rendering (Packet has no PartialEq); NaN payloads are covered by the byte-identity clause".into(),
